@@ -104,9 +104,10 @@ type captureHandler struct {
 	log   *Log
 	attrs []slog.Attr
 	group string
+	quiet bool // a handler that is not enabled for any level (logs go nowhere)
 }
 
-func (h *captureHandler) Enabled(context.Context, slog.Level) bool { return true }
+func (h *captureHandler) Enabled(context.Context, slog.Level) bool { return !h.quiet }
 
 func (h *captureHandler) Handle(_ context.Context, r slog.Record) error {
 	var sb strings.Builder
@@ -162,7 +163,12 @@ func (w *captureWriter) Write(p []byte) (int, error) {
 
 // NewOutput returns a ui.Output whose every record and printed line lands in the event log.
 func NewOutput(l *Log, interactive bool) *ui.Output {
-	logger := slog.New(&captureHandler{log: l})
+	return NewOutputQuiet(l, interactive, false)
+}
+
+// NewOutputQuiet is NewOutput with a logger whose handler is disabled for every level when quiet is set.
+func NewOutputQuiet(l *Log, interactive, quiet bool) *ui.Output {
+	logger := slog.New(&captureHandler{log: l, quiet: quiet})
 	printer := ui.NewPrinter(&captureWriter{l, "out.print"}, &captureWriter{l, "out.eprint"})
 	return ui.NewOutput(logger, printer, interactive, true)
 }
@@ -202,6 +208,7 @@ type Spec struct {
 	Labels          map[string]string `json:"labels,omitempty"`
 	Interactive     bool              `json:"interactive,omitempty"`
 	Verbose         bool              `json:"verbose,omitempty"`
+	QuietLogger     bool              `json:"quiet_logger,omitempty"` // the slog handler is disabled for every level
 	Scenario        string            `json:"scenario,omitempty"`
 }
 
@@ -218,6 +225,9 @@ type Hooks struct {
 	OnTriggerReturn func()
 	// CustomRate overrides the scripted custom rate function.
 	CustomRate func(k int, now time.Time) int
+	// Registry, when set, is the scenario registry to use (the same *scenarios.Scenario object is then
+	// shared by consecutive runs, as with one f1.F1 instance executed twice).
+	Registry *scenarios.Scenarios
 	// StageRate (mode "filestages") replaces the value of evaluation k of rate stage i (v is f1's own value).
 	StageRate func(stage, k int, now time.Time, v int) int
 }
@@ -394,7 +404,7 @@ func Prepare(spec Spec, l *Log, scenarioFn f1testing.ScenarioFn, hooks *Hooks, r
 		spec.Scenario = "verifScenario"
 	}
 	r := &Run{Spec: spec, Log: l}
-	out := NewOutput(l, spec.Interactive)
+	out := NewOutputQuiet(l, spec.Interactive, spec.QuietLogger)
 	trig, err := BuildTrigger(&spec, out, hooks, r)
 	r.Spec = spec
 	if err != nil {
@@ -409,7 +419,15 @@ func Prepare(spec Spec, l *Log, scenarioFn f1testing.ScenarioFn, hooks *Hooks, r
 		r.Registry = prometheus.NewRegistry()
 		r.Metrics = metrics.NewInstance(r.Registry, true, spec.Labels)
 	}
-	sc := scenarios.New().Add(&scenarios.Scenario{Name: spec.Scenario, ScenarioFn: scenarioFn})
+	var sc *scenarios.Scenarios
+	if hooks != nil && hooks.Registry != nil {
+		sc = hooks.Registry
+		if sc.GetScenario(spec.Scenario) == nil {
+			sc.Add(&scenarios.Scenario{Name: spec.Scenario, ScenarioFn: scenarioFn})
+		}
+	} else {
+		sc = scenarios.New().Add(&scenarios.Scenario{Name: spec.Scenario, ScenarioFn: scenarioFn})
+	}
 	r.Options = options.RunOptions{
 		Scenario:        spec.Scenario,
 		MaxDuration:     ms(spec.MaxDurationMS),
